@@ -26,6 +26,9 @@ def judge(res, pid, tag, line, i, m, check_meta=True):
         if i != "NOTRUN":
             res.violation("oracle", key, "opening a crafted file (%s) ends in %s" % (tag, i), case)
         return True
+    if i.startswith("RETRY-OPENED"):
+        res.violation("oracle", key, "a file (%s) that is refused opens when the caller clears the error and tries again: %s" % (tag, i[:120]), case)
+        return True
     if check_meta and i.startswith("OK"):
         if "BAD" in i:
             res.violation("oracle", key, "getters inconsistent with the chunk table (%s): %s" % (tag, i[-80:]), case)
